@@ -16,6 +16,8 @@ for v in ctx.violations:
     det = v['detail']
     prob = det.get('problems') or det.get('exc') or det.get('error') or det.get('diff')
     key = (v['oracle'], str(det.get('op'))[:50] if v['oracle'] != 'structure' else '', str(prob)[:int(os.environ.get('W', '160'))])
+    if v['case'].get('kind') == 'battery':
+        key = (v['oracle'], v['case']['mutator'], str(det.get('what')) + ' ' + str(det.get('exception', ''))[:40])
     g[key].append(v)
 for key, vs in sorted(g.items(), key=lambda x: -len(x[1]))[: int(os.environ.get('N', '30'))]:
     print(len(vs), key)
